@@ -8,6 +8,7 @@ import LitexProofs.Periph.UartIdle
 import LitexProofs.Periph.SpiCount
 import LitexProofs.Periph.SpiSlave
 import LitexProofs.Periph.I2cWrite
+import LitexProofs.Periph.I2cPad
 /-
   C19 — Serial peripherals and timers produce exact waveforms and always finish.
 
@@ -651,5 +652,52 @@ theorem i2c_write_sequence (s : I2cSt) (f : Nat → I2cIn) (hf : s.fsm = .write0
     (i2cSteps s f 18).scl = true ∧ (i2cSteps s f 18).sda = true ∧
     (i2cSteps s f 19).scl = false ∧ (i2cSteps s f 19).ack = !(f 18).sdaI ∧ (i2cSteps s f 19).fsm = .idle :=
   ⟨fun j hj => i2c_write_bits s f hf hb hd j hj, i2c_write_ack s f hf hb⟩
+
+/-! ## I2CMaster: legality at the pads -/
+
+/-- **i2c_pad_legal.**  `I2CMaster` = Wishbone registers + bit machine + the stage that lets SDA follow `sda_o` only
+    when the SCL seen in the previous cycle equals `scl_o`.  Start: any state in which the machine is still as after
+    reset (idle, both lines released) and the divider has been programmed with a value ≥ 1; then **every** sequence of
+    bus cycles (commands while busy, back-to-back and compound commands, data and divider writes — the divider never
+    written with 0) and **every** behaviour of the rest of the bus (`ext_scl`: clock stretching, `ext_sda`).
+    Whenever the SDA driver changes between two consecutive cycles, either
+      * the SCL line is low in both cycles (a data change), or
+      * the SCL line was high, the master keeps SCL released, the driver now shows `sda_o`, and `sda_o` was last
+        assigned by START0 or STOP2 (ghost bit of `i2cmAug`): a START or STOP condition, possibly deferred by clock
+        stretching — and by `i2c_legal` the machine assigns `sda_o` under released SCL only there.
+    Before fix 86eb66e a command written while busy broke this (spurious STOP inside a byte; replayed by the probe
+    `C19-i2c-busy-command-glitch`).  Divider 0 (the reset value) is outside the range: SCL then toggles every cycle and
+    the stage never lets SDA follow (example below). -/
+theorem i2c_pad_legal (s0 : I2cmSt) (hf : s0.m.fsm = .idle) (hscl : s0.m.scl = true) (hb : s0.m.bits < 16)
+    (hl : 1 ≤ s0.load) (ins : List I2cmIn) (hins : ∀ j ∈ ins, LoadOk j) (i : I2cmIn) (hi : LoadOk i) :
+    let sg := i2cmAug.runFrom (s0, true) ins
+    let s := sg.1
+    let s' := i2cmNext s i
+    s = i2cMaster.runFrom s0 ins ∧
+    (s.sdaOe ≠ s'.sdaOe →
+      (s.padScl i = false ∧ ∀ j, s'.padScl j = false) ∨
+      (s.padScl i = true ∧ s'.m.scl = true ∧ s'.sdaOe = !s'.m.sda ∧ sdaKind s.m s.stepped sg.2 = true)) := by
+  intro sg s s'
+  have h0 : PadInv s0 true :=
+    ⟨⟨by simp [hf], by simp [hf], hb⟩, fun _ _ => rfl, by simp [hscl], hl⟩
+  have hinv := pad_inv_run ins hins (s0, true) h0
+  have hstep := (pad_step sg.1 sg.2 i hinv hi).2
+  refine ⟨i2cmAug_fst ins (s0, true), fun hch => ?_⟩
+  rcases hstep.sda hch with ⟨h1, h2⟩ | ⟨_, h2, h3, h4, h5⟩
+  · left
+    refine ⟨h1, fun j => ?_⟩
+    show (if (!s'.m.scl) then false else j.extScl) = false
+    rw [show s'.m.scl = false from h2]; rfl
+  · right; exact ⟨h3, h2, h4, h5⟩
+
+/-- Non-vacuity (divider 1: START, then WRITE 0x55 — in cycle 18 the driver has released SDA for the first 1-bit while
+    SCL is low) and the divider-0 remark (the driver stays low during the whole byte: 0x55 goes out as 0x00). -/
+example :
+    let idl : I2cmIn := ⟨false, false, false, false, 0, true, true⟩
+    let wrx : Nat → I2cmIn := fun d => ⟨true, true, true, false, d, true, true⟩
+    let ins := [wrx 2048] ++ List.replicate 9 idl ++ [wrx (1024 + 0x55)] ++ List.replicate 40 idl
+    let st := fun (l k : Nat) => i2cMaster.runFrom { i2cMaster.init with load := l } (ins.take k)
+    ((st 1 17).sdaOe = true ∧ (st 1 18).sdaOe = false ∧ (st 1 17).m.scl = false ∧ (st 1 18).m.scl = false) ∧
+    (List.range 29).all (fun k => (st 0 (k + 3)).sdaOe) = true := by decide +kernel
 
 end Litex.C19
